@@ -136,7 +136,7 @@ def miri(ctx, cov):
     seeds = int(8 * ctx["scale"]) or 1
     env["MIRIFLAGS"] = f"-Zmiri-disable-isolation -Zmiri-many-seeds=0..{seeds}"
     target = ctx["TARGET"] + "-miri"
-    cmd = ["cargo", "miri", "run", "--offline", "--target-dir", target, "--", "C18", "--seed", str(ctx["seed"]), "--extra", "mode=small", "--extra", "cases=12", "--extra", "tz=0", "--extra", "threads=3"]
+    cmd = ["cargo", "miri", "run", "--offline", "--target-dir", target, "--", "C18", "--seed", str(ctx["seed"]), "--extra", "mode=small", "--extra", "cases=6", "--extra", "tz=0", "--extra", "threads=3", "--extra", "light=1"]
     try:
         p = _run(cmd, env=env, cwd=ctx["HARNESS"], timeout=4 * 3600)
     except subprocess.TimeoutExpired:
